@@ -248,11 +248,19 @@ def array_from_lazy(eng, s):
     items = LZ.concrete_items(eng, s)
     if items is not None:
         return array_from_seq(eng, items)
-    probe = unwrap(s.item(T.fresh("probe", "int")))
+    saved_obs = eng.obligations
+    eng.obligations = []                 # probing the element kind at an unconstrained position must not leave obligations behind
+    try:
+        probe = unwrap(s.item(T.fresh("probe", "int")))
+    finally:
+        eng.obligations = saved_obs
     item = s.item
     if isinstance(probe, I.Arr):
         if any(T.is_sym(d) for d in probe.shape):
-            raise Unsupported("np.array of a lazy sequence of arrays with symbolic shape")
+            # symbolic item shapes are fine when they do not depend on the position (np.array of a ragged list would be an object array)
+            other = unwrap(s.item(T.fresh("probe", "int")))
+            if not (isinstance(other, I.Arr) and len(other.shape) == len(probe.shape) and all(dim_eq(a, b) for a, b in zip(other.shape, probe.shape))):
+                raise Unsupported("np.array of a lazy sequence of arrays whose shape depends on the position")
         return I.Arr((s.length,) + tuple(probe.shape), lambda i, *rest: unwrap(item(i)).fn(*rest), probe.dtype)
     if T.is_scalar(probe):
         dt = scalar_dtype(probe)
@@ -568,6 +576,12 @@ def iterate(eng, v, allow_symbolic=False):
         if allow_symbolic:
             return v
         raise Unsupported("symbolic iteration without an invariant")
+    if isinstance(v, I.Opaque) and v.kind == "where":
+        # for i in np.where(mask)[0]: the indices at which the mask holds, in increasing order.  count / k-th index / rank are uninterpreted,
+        # their defining facts are instantiated at the loop position (by the loop rule through element()) and at the harness's generic indices
+        if not allow_symbolic:
+            raise Unsupported("iteration over the index set of a symbolic mask without a loop contract")
+        return where_range(eng, v)
     if type(v).__name__ == "SymList":
         n = v.length
         c = T.simp(n) if T.is_sym(n) else n
@@ -597,6 +611,38 @@ def iterate(eng, v, allow_symbolic=False):
             raise _I().PyRaise("ValueError", ("zip() arguments have different lengths",))
         return [tuple(t) for t in zip(*inners)]
     raise Unsupported(f"iteration over {type(v).__name__}")
+
+
+def where_range(eng, w):
+    mask = w.data["mask"]
+    n = T.zi(mask.shape[0])
+    if "count" not in w.data:
+        tag = T.fresh("w", "int")
+        w.data["count"] = z3.Int(f"where_count!{tag}")
+        w.data["index"] = z3.Function(f"where_index!{tag}", z3.IntSort(), z3.IntSort())
+        w.data["rank"] = z3.Function(f"where_rank!{tag}", z3.IntSort(), z3.IntSort())
+    cnt, idx, rank = w.data["count"], w.data["index"], w.data["rank"]
+    mf = mask.fn
+
+    def holds(i):
+        m = mf(i)
+        return T.zb(m) if T.is_sym(m) else z3.BoolVal(bool(m))
+
+    def facts_at_position(k):
+        k = T.zi(k)
+        return z3.Implies(z3.And(k >= 0, k < cnt), z3.And(idx(k) >= 0, idx(k) < n, holds(idx(k)), rank(idx(k)) == k))
+
+    def facts_at_index(i):
+        i = T.zi(i)
+        return z3.Implies(z3.And(i >= 0, i < n, holds(i)), z3.And(rank(i) >= 0, rank(i) < cnt, idx(rank(i)) == i))
+    eng.add_axiom(z3.And(cnt >= 0, cnt <= n))
+    for g in getattr(eng, "generic_indices", []):
+        eng.add_axiom(facts_at_index(g))
+
+    def element(k, _i):
+        eng.add_axiom(facts_at_position(k))
+        return idx(T.zi(k))
+    return SymbolicRange(0, cnt, 1, wrap=element)
 
 
 class EnumerateVal:
@@ -900,6 +946,14 @@ def check_writable(a):
 def inplace_update(eng, a, newv):
     """a op= ...  : same cell, new contents."""
     I = _I()
+    if a.base is not None and isinstance(a.tag, tuple) and a.tag and a.tag[0] == "perm" and a.base.nviews == 1 and a.base.base is None \
+            and isinstance(newv, I.Arr) and len(newv.shape) == len(a.shape):
+        # x = np.moveaxis(y, ...); x op= v  -- the only live view of y is an axis permutation: the update is written through to y
+        axes = a.tag[1]
+        nf = newv.fn
+        a.fn = nf
+        a.base.fn = lambda *src, nf=nf, axes=axes: nf(*[src[axes[k]] for k in range(len(axes))])
+        return a
     check_writable(a)
     if not isinstance(newv, I.Arr):
         raise Unsupported("in-place update with scalar result")
@@ -1149,6 +1203,8 @@ def transpose(eng, a, axes=None):
             src[src_ax] = i[out_ax]
         return f(*src)
     r = I.Arr(shape, fn, a.dtype)
+    if a.base is None and a.tag is None:
+        r.tag = ("perm", axes)          # a pure axis permutation of an owning array: in-place updates can be written through
     register_view(r, a.base if a.base is not None else a)
     return r
 
